@@ -46,7 +46,9 @@ def market_history(seed, max_events=40, tick=1.0, prices=(8, 12), offgrid=False,
         if r < 0.6:
             mkt = rng.random() < 0.2
             p = None if mkt else float(rng.randint(*prices)) + (rng.choice([0.0, 0.25, 0.5, 0.78125, 0.21875, 0.03125]) if offgrid else 0.0)
-            if offgrid and not mkt and rng.random() < 0.15:
+            if offgrid and not mkt and rng.random() < 0.1:
+                p = rng.randint(*prices)        # a Python int as limit price (users pass ints): off the grid for ticks such as 2.5
+            elif offgrid and not mkt and rng.random() < 0.15:
                 p = rng.choice([0.25, 0.75, 1.5, 2.0 ** -20, 10 - 2.0 ** -36, 10 + 2.0 ** -36]) * tick      # below the first grid level, and a hair off a level
             o = Order(agent_id=rng.randint(0, 2), market_id=0, is_buy=rng.random() < 0.5, kind=MARKET_ORDER if mkt else LIMIT_ORDER,
                       volume=rng.randint(1, 3), price=p, ttl=rng.choice([None, 1, 2, 3]))
